@@ -120,6 +120,11 @@ func (k *confiner) confined(v ssa.Value, at *ssa.BasicBlock, depth int) (bool, s
 		return true, ""
 	case *ssa.Extract:
 		call, ok := y.Tuple.(*ssa.Call)
+		if ok {
+			if sf := staticFn(call); sf != nil && sf.Pkg != nil && sf.Pkg.Pkg.Path() == webPath {
+				return k.helperResultConfined(sf, y.Index, depth)
+			}
+		}
 		if !ok || callName(call) != "path/filepath.EvalSymlinks" || y.Index != 0 {
 			return false, "not a symlink-resolved path (" + y.Name() + ")"
 		}
@@ -170,9 +175,35 @@ func (k *confiner) confined(v ssa.Value, at *ssa.BasicBlock, depth int) (bool, s
 			return true, ""
 		}
 	case *ssa.Call:
+		if sf := staticFn(y); sf != nil && sf.Pkg != nil && sf.Pkg.Pkg.Path() == webPath && sf.Signature.Results().Len() == 1 {
+			return k.helperResultConfined(sf, 0, depth)
+		}
 		return false, "raw path computed by " + short(callName(y)) + " at " + k.c.pos(y.Pos()) + " (joined/concatenated after the containment check)"
 	}
 	return false, "raw path value " + v.Name()
+}
+
+// helperResultConfined: result idx of the package's helper sf is confined at every return (the empty string
+// constant - nothing can be opened under it - aside): the helper resolved and checked the path itself.
+func (k *confiner) helperResultConfined(sf *ssa.Function, idx int, depth int) (bool, string) {
+	n := 0
+	for _, b := range sf.Blocks {
+		ret, ok := b.Instrs[len(b.Instrs)-1].(*ssa.Return)
+		if !ok || idx >= len(ret.Results) {
+			continue
+		}
+		n++
+		if cst, ok := ret.Results[idx].(*ssa.Const); ok && cst.Value != nil && cst.Value.ExactString() == `""` {
+			continue
+		}
+		if ok, why := k.confined(ret.Results[idx], b, depth+1); !ok {
+			return false, "returned by " + fnKey(sf) + " at " + k.c.pos(ret.Pos()) + ": " + why
+		}
+	}
+	if n == 0 {
+		return false, "helper " + fnKey(sf) + " has no return"
+	}
+	return true, ""
 }
 
 func runC17(c *Ctx) {
